@@ -13,3 +13,4 @@ import AioMySensors.Model.Handlers
 import AioMySensors.Model.Gateway
 import AioMySensors.Model.Mqtt
 import AioMySensors.Model.Stream
+import AioMySensors.Model.Flush
